@@ -133,7 +133,8 @@ func sizes(typ *types.Struct, prefix string, base int64, out []st.Field) []st.Fi
 		return out
 	}
 	field := &out[len(out)-1]
-	if field.Size == 0 {
+	if field.Size == 0 && s.Sizeof(typ) != 0 {
+		// the byte of padding that follows a trailing zero-sized field
 		field.Size = 1
 		field.End++
 	}
